@@ -366,24 +366,50 @@ func Close[T any](ch chan T) {
 	close(ch)
 }
 
+// pending sends on unbuffered channels: the sender parks a helper goroutine in the real send; a receiver sees
+// the channel as ready while one is parked and, after the rendezvous, waits for the helper to mark completion.
+type pendingSend struct {
+	completed bool
+	ack       chan struct{}
+}
+
+var pendingSends = map[any][]*pendingSend{}
+
 func readyRecv(ch any) bool {
 	rv := reflect.ValueOf(ch)
 	if rv.IsNil() {
 		return false
 	}
-	return rv.Len() > 0 || closedChans[rv.Pointer()]
+	return rv.Len() > 0 || closedChans[rv.Pointer()] || len(pendingSends[rv.Pointer()]) > 0
+}
+
+// afterRecv completes the bookkeeping of a rendezvous on an unbuffered channel.
+func afterRecv(ch any) {
+	k := chanKey(ch)
+	if ps := pendingSends[k]; len(ps) > 0 {
+		p := ps[0]
+		pendingSends[k] = ps[1:]
+		<-p.ack
+	}
 }
 
 func Recv[T any](ch <-chan T) T {
 	Point()
 	Await(func() bool { return readyRecv(ch) })
-	return <-ch
+	v, ok := <-ch
+	if ok && cap(ch) == 0 {
+		afterRecv(ch)
+	}
+	return v
 }
 
 func Recv2[T any](ch <-chan T) (T, bool) {
 	Point()
 	Await(func() bool { return readyRecv(ch) })
 	v, ok := <-ch
+	if ok && cap(ch) == 0 {
+		afterRecv(ch)
+	}
 	return v, ok
 }
 
@@ -393,9 +419,11 @@ func Send[T any](ch chan<- T, v T) {
 	limit := rv.Cap()
 	if limit == 0 {
 		// unbuffered: hand the value to a helper and wait until taken
-		done := false
-		go func() { ch <- v; done = true }()
-		Await(func() bool { return done })
+		p := &pendingSend{ack: make(chan struct{})}
+		k := rv.Pointer()
+		pendingSends[k] = append(pendingSends[k], p)
+		go func() { ch <- v; p.completed = true; close(p.ack) }()
+		Await(func() bool { return p.completed })
 		return
 	}
 	Await(func() bool { return rv.Len() < limit || closedChans[rv.Pointer()] })
